@@ -3,9 +3,9 @@ SPEC_PART = dict(
     legs=[dict(family="cpc", focus="size", oracles=["layout_ok"], profiles=["debug", "release"], n_quick=None, n_thorough=None,
                mask=[0, 1, 2, 3, 4, 5, 6, 7, 8, 18, 32], panic_is_violation=True)],
     trusted=["cpc: the bound on the surprising-value stream (safe_length_for_compressed_pair_buf) and the empirical "
-             "max_serialized_bytes percentile have no theorem; the latter is a measured test, not an obligation"],
+             "max_serialized_bytes percentile have no theorem and NO test either: no operation of the harness compares the length of a serialized image with max_serialized_bytes(lg_k) (the table is an empirical percentile, an image may exceed it by design)"],
     assumptions=[],
-    covers="cpc: the 16-entry empirical max_serialized_bytes table has the shape sizes must have - strictly increasing, each entry "
+    covers="cpc (PARTIAL: shape of the size table and the window stream only; no bound on the surprising-value stream, and the claim 'a serialized sketch takes at most max_serialized_bytes(lg_k)' is neither proved nor tested): the 16-entry empirical max_serialized_bytes table has the shape sizes must have - strictly increasing, each entry "
            "less than twice its predecessor (streams double with K, the header does not), at most the 1.5 K bytes of a 12-bit-per-byte "
            "window, meeting the 0.6 K rule at lg_k 19 within 0.1 % (c18_cpc_max_size_table_shape); max_serialized_bytes is defined and "
            "strictly increasing, less than doubling, over lg_k 4..26 across the switch to the binary64 0.6*K rule "
